@@ -87,6 +87,16 @@ def run(ctx):
             y = R.choice([1999, 2015, 2024])
             form = R.choice(["%02d %d", "%d %d", "%02d/%d", "%02d-%d"]) % (n, y) if R.random() < 0.6 else R.choice(["%d %02d", "%d/%02d", "%d.%02d"]) % (y, n)
             items.append((form, [lang], None, ABS, ["year", "one-of-day-month"]))
+    # a '00' placeholder where a day or a month would stand, next to a four-digit year ('00/03/2021', '15.00.2021', '00 March 2021'): the
+    # placeholder states nothing, so under strictness there is either no result or one that does not depend on the reference time
+    for lang in (ld["order"] if tier != "quick" else ["en", "fr", "de", "ru", "zh", "hu", "es", "ja"] + R.sample(ld["order"], 12)):
+        words = dict(infos[lang]["words"])
+        mn = (words.get("march") or [None])[0]
+        forms = ["00/03/2021", "00.03.2021", "03/00/2021", "15.00.2021", "15/00/2021", "2021-00-15", "2021/03/00"]
+        if mn and " " not in mn:
+            forms += ["00 %s 2021" % mn, "%s 00, 2021" % mn, "00 %s 2021 10:30" % mn]
+        for f_ in (forms if tier != "quick" else R.sample(forms, 4)):
+            items.append((f_, [lang], None, ABS, None))
     # custom formats and timestamps
     FM = [("%B %Y", lambda: "%s %d" % (R.choice(calendar.month_name[1:]), R.choice([1999, 2024])), ["month", "year"]),
           ("%B", lambda: R.choice(calendar.month_name[1:]), ["month"]),
